@@ -10,7 +10,7 @@
 From ReqV Require Import Lib.Bytes Model.HeaderOrder Model.HeaderCollect
   Model.HeaderMerge
   Proofs.HeaderOrderProofs Proofs.HeaderCollectProofs Proofs.HeaderWireProofs Proofs.HeaderSyncProofs
-  Proofs.HeaderMergeProofs Gen.HeaderSrc.
+  Proofs.HeaderMergeProofs Proofs.HeaderKeySortProofs Gen.HeaderSrc.
 From Coq Require Import Permutation Sorting.Sorted.
 
 (* ===================== part 1: header.SortKeyValues ===================== *)
@@ -311,6 +311,15 @@ Theorem C16_h1_order_independent_of_map_iteration : forall q h',
 Proof. exact h1_order_independent_of_map_iteration. Qed.
 Print Assumptions C16_h1_order_independent_of_map_iteration.
 
+(* without an order list HTTP/1.1 writes the map sorted by key: the lines are the same, line by
+   line, for every iteration order *)
+Theorem C16_h1_no_order_deterministic : forall q h',
+  NoDup (map fst (c_hdr q)) -> Permutation (c_hdr q) h' ->
+  is_nil (order_list (c_hdr q)) = true ->
+  h1_lines (set_hdr q h') = h1_lines q.
+Proof. exact h1_no_order_deterministic. Qed.
+Print Assumptions C16_h1_no_order_deterministic.
+
 Theorem C16_h2_order_independent_of_map_iteration : forall q h',
   NoDup (map fst (c_hdr q)) -> Permutation (c_hdr q) h' ->
   pseudo_lines (set_hdr q h') = pseudo_lines q /\
@@ -349,6 +358,14 @@ Theorem C16_set_header_non_canonical_appends : forall ops k v,
   forall k', k' <> k -> hvals (apply_ops (ops ++ [OpNC k v])) k' = hvals (apply_ops ops) k'.
 Proof. exact set_header_non_canonical_appends. Qed.
 Print Assumptions C16_set_header_non_canonical_appends.
+
+(* through the canonicalising setters every letter-case spelling of a bookkeeping key IS the
+   bookkeeping key, which no collector emits *)
+Theorem C16_bookkeeping_spelling_via_set_header : forall k,
+  (to_lower k = to_lower header_order_key -> mime_key k = header_order_key) /\
+  (to_lower k = to_lower pseudo_header_order_key -> mime_key k = pseudo_header_order_key).
+Proof. exact bookkeeping_spelling_via_set_header. Qed.
+Print Assumptions C16_bookkeeping_spelling_via_set_header.
 
 (* request level wins per exact key; client level fills the keys the request has no value for;
    nothing is invented *)
@@ -526,5 +543,27 @@ Proof.
   split; [intros x Hx; cbn in Hx; repeat (destruct Hx as [<-|Hx]; [vm_compute; reflexivity|]); destruct Hx|].
   split; [vm_compute; reflexivity|].
   split; [vm_compute; tauto|].
+  repeat split; vm_compute; reflexivity.
+Qed.
+
+(* the API-level statements are about real configurations: request-level calls (a canonicalising
+   setter, the non-canonical one twice, an order list), client-level calls (one overridden name, one
+   not, a name differing only in case), two cookies and two client-level order registrations *)
+Example C16_api_nonvacuous :
+  let rh := apply_ops [OpSet (bs "x-a") (bs "1"); OpNC (bs "x-b") (bs "2"); OpNC (bs "x-b") (bs "3");
+                       OpOrder [bs "x-b"; bs "cookie"]] in
+  let ch := apply_ops [OpSet (bs "X-A") (bs "client"); OpSet (bs "x-c") (bs "4"); OpNC (bs "X-B") (bs "5")] in
+  let h := transport_hdr rh ch [bs "a=1"; bs "b=2"] [[bs "x-c"; bs "x-a"]; [bs "ignored"]] [] in
+  NoDup (map fst rh) /\ NoDup (map fst ch) /\
+  order_list h = [bs "x-c"; bs "x-a"] /\
+  h1_lines (req_of (bs "GET") (bs "example.com") (bs "/") (bs "http") h 0%Z false) =
+    [(bs "X-C", bs "4"); (bs "X-A", bs "1"); (bs "Host", bs "example.com"); (bs "User-Agent", default_user_agent);
+     (bs "x-b", bs "2"); (bs "x-b", bs "3"); (bs "X-B", bs "5"); (bs "Cookie", bs "a=1; b=2")] /\
+  h2_lines (req_of (bs "GET") (bs "example.com") (bs "/") (bs "http") h 0%Z false) =
+    [(bs ":authority", bs "example.com"); (bs ":method", bs "GET"); (bs ":path", bs "/"); (bs ":scheme", bs "http");
+     (bs "x-c", bs "4"); (bs "x-a", bs "1"); (bs "x-b", bs "2"); (bs "x-b", bs "3"); (bs "x-b", bs "5");
+     (bs "cookie", bs "a=1"); (bs "cookie", bs "b=2"); (bs "user-agent", default_user_agent)].
+Proof.
+  split; [apply apply_ops_nodup|]. split; [apply apply_ops_nodup|].
   repeat split; vm_compute; reflexivity.
 Qed.
